@@ -223,6 +223,9 @@ VERUS = {
     'ctrl': dict(props=['C01', 'C06', 'C13', 'C02', 'C10', 'C18'], tier='quick',
                  desc='control-byte logic of the table core on extracted text over a Vec<u8> view of the control array, all table sizes, both widths: set_ctrl (mirror index, mirror invariant, frame), set_ctrl_hash, replace_ctrl_hash, is_bucket_full, record_item_insert_at (accounting F1), erase (EMPTY/DELETED, accounting, frame, no tombstone below one group), Tag, probe_seq; every control-byte access in bounds',
                  paired={}),
+    'shrink': dict(props=['C08'], tier='quick',
+                   desc='RawTable::shrink_to on extracted text against the contracts of capacity_to_buckets (proved in the same unit), with_capacity, resize and drop_inner_table: no element lost, never enlarges, empty + 0 frees the allocation, capacity() >= max(len, min(m, previous)), bucket count at most the one capacity_to_buckets gives for max(len, m); the unreachable_unchecked() after the infallible resize is dead',
+                   paired={}),
     'glue': dict(props=['C01', 'C06', 'C14'], tier='quick',
                  desc='RawTable::insert and RawTable::insert_in_slot on extracted text against the contracts of find_insert_slot, reserve and record_item_insert_at: the slot handed to insert_in_slot is an EMPTY/DELETED bucket of the table as it is AFTER any reserve, an EMPTY bucket is consumed only while growth is left, mirror invariant and item count maintained',
                  paired={}),
